@@ -65,8 +65,8 @@ def project(line):
     if not line.startswith('("ok"'):
         return line
     r = parse_sx(line)
-    flags = [(x[0], x[1] if x[0] == b"ok" else None) for x in r[1:7]]
-    return repr((flags, r[7]))
+    flags = [(x[0], x[1] if x[0] == b"ok" else None) for x in list(r[1:7]) + list(r[9:11])]
+    return repr((flags, r[7], r[8]))
 
 
 def gen_cases(ctx):
@@ -136,7 +136,17 @@ def oracle(ctx, cases, impl_lines):
         r = parse_sx(line)
         A, B, U, I, U2, I2 = [cdump.SetInfo(x) for x in r[1:7]]
         rows = r[7]
+        AU, AI = cdump.SetInfo(r[9]), cdump.SetInfo(r[10])
         parsed[idx] = (A, B, U, I, U2, I2, rows)
+        for nm, okbit in zip(("A∪B", "A∩B", "B∪A", "B∩A"), r[8]):
+            if okbit != 1:
+                # observe_at is a function of the set: computing with a set as ARGUMENT must not change it
+                hits.append(Hit(idx, "the argument of %s prints or matches differently after the call" % nm, None, okbit, 1, "arg"))
+        for nm, X, slot in (("A∪A", AU, "au"), ("A∩A", AI, "ai")):
+            if not X.ok:
+                ctx.count("op-error:%s" % nm)
+            elif X.empty != A.empty:
+                hits.append(Hit(idx, "Empty(%s) differs from Empty(A)" % nm, None, X.empty, A.empty, slot))
         ctx.count("pair:%s:ok" % name)
         ctx.count("spans:%d" % min(len(A.spans) + len(B.spans), 6))
         for nm, X in (("union", U), ("intersection", I), ("union'", U2), ("intersection'", I2)):
@@ -151,7 +161,7 @@ def oracle(ctx, cases, impl_lines):
             if row == [b"verr"]:
                 ctx.count("probe:rejected")
                 continue
-            aE, aI, bE, bI, uE, uI, iE, iI, u2E, u2I, i2E, i2I = row
+            aE, aI, bE, bI, uE, uI, iE, iI, u2E, u2I, i2E, i2I, pU, pI, pU2, pI2, auE, auI, aiE, aiI = row
             ctx.evaluations += 1
             rel = is_release(probe)
             ctx.count("probe:release" if rel else "probe:prerelease")
@@ -169,6 +179,18 @@ def oracle(ctx, cases, impl_lines):
             for nm, X, e, i_, slot in (("A", A, aE, aI, "a"), ("B", B, bE, bI, "b"), ("A∪B", U, uE, uI, "u"), ("A∩B", I, iE, iI, "i")):
                 if X.ok and X.empty and (e == 1 or i_ == 1):
                     hits.append(Hit(idx, "%s is reported Empty but matches v" % nm, probe, 1, 0, slot))
+            # the public route of observe_at on the RESULTS: print, ParseSetConstraint, MatchVersionPrerelease
+            if not any(ch in probe for ch in b"xX*"):
+                for nm, X, hook, pub, slot in (("A∪B", U, uI, pU, "u"), ("A∩B", I, iI, pI, "i"), ("B∪A", U2, u2I, pU2, "u"), ("B∩A", I2, i2I, pI2, "i")):
+                    if X.ok and pub != hook:
+                        ctx.count("public-route:" + ("printed result rejected" if pub == -2 else "differs"))
+                        hits.append(Hit(idx, "%s: ParseSetConstraint(result.String()).MatchVersionPrerelease differs from the result's own interval matching (printed %r)"
+                                        % (nm, X.string), probe, pub, hook, "pub:" + slot))
+            # receiver = argument
+            if AU.ok and (auE, auI) != (aE, aI):
+                hits.append(Hit(idx, "A∪A matches differently from A", probe, (auE, auI), (aE, aI), "au"))
+            if AI.ok and (aiE, aiI) != (aE, aI):
+                hits.append(Hit(idx, "A∩A matches differently from A", probe, (aiE, aiI), (aE, aI), "ai"))
             if U.ok and U2.ok and (uE != u2E or uI != u2I):
                 hits.append(Hit(idx, "A∪B and B∪A match different versions", probe, (uE, uI), (u2E, u2I), "u"))
             if I.ok and I2.ok and (iE != i2E or iI != i2I):
@@ -233,6 +255,7 @@ def classify(ctx, tables, cases, impl_lines, model_lines, hits, parsed):
                 r = parse_sx(line)
                 ev = {"u": set(e[0].decode() for e in r[1]) | set(e[0].decode() for e in r[3]),
                       "i": set(e[0].decode() for e in r[2]) | set(e[0].decode() for e in r[4]),
+                      "au": set(e[0].decode() for e in r[7]), "ai": set(e[0].decode() for e in r[8]),
                       "region": {"u": bool(r[5]), "i": bool(r[6])}}
                 diag[i] = ev
                 name = NAMES[cases[i]["sys"]]
@@ -254,11 +277,21 @@ def classify(ctx, tables, cases, impl_lines, model_lines, hits, parsed):
         if claimed and h.slot in ("u", "i") and reg.get(h.slot):
             ctx.divergence("theorem-region", inp, "oracle hit inside the proved region of C09_%s_partial: %s" % ("union" if h.slot == "u" else "inter", h.what), "no hit")
             continue
+        if h.slot.startswith("pub:"):
+            # the only recorded reason for the public route to fail: the printed result is rejected
+            # because a lower bound or single version carries ∞ (F-C11-2, here F-C09-6)
+            X = parsed[h.idx][2 + ("A∪B", "A∩B", "B∪A", "B∩A").index(h.what[:3])]
+            inf_low = any(sp_.rank >= 1 and sp_.min is not None and cdump.INF in sp_.min.nums for sp_ in X.spans)
+            if h.observed == -2 and inf_low and "F-C09-6" in open_ids:
+                ctx.known_hits["F-C09-6"] = ctx.known_hits.get("F-C09-6", 0) + 1
+            else:
+                ctx.violation(h.what, inp, h.observed, h.required)
+            continue
         ev = set()
         for i in (h.idx, c.get("perm_of")):
             if i is not None and i in diag:
                 d = diag[i]
-                ev |= (d["u"] | d["i"]) if h.slot in ("a", "b") else d[h.slot]
+                ev |= (d["u"] | d["i"]) if h.slot in ("a", "b") else d.get(h.slot.replace("pub:", ""), set())
         cls = None
         for tag in ("drop", "adj", "openunit", "premerge"):
             if tag in ev:
@@ -299,8 +332,13 @@ def model_on_go_sets(ctx, tables, cases, impl_lines, kind):
         head = [str(c["sys"]), sx(da), sx(db)] if kind == "setop_d" else [sx(da), sx(db)]
         if kind == "setop_d":
             head.append(sx(c["probes"]))
+        keys = set((0, p) for p in c["probes"])
+        if kind == "setop_d":
+            for x in r[3:7]:            # the printed results are read back by the public route
+                if x[0] == b"ok":
+                    keys |= ctable.set_string_keys(bytes(x[2]))
         idx.append(i)
-        mcases.append({"sys": c["sys"], "head": head, "keys": set((0, p) for p in c["probes"])})
+        mcases.append({"sys": c["sys"], "head": head, "keys": keys})
     if kind == "setdiag_d":
         outs = ctx.model(kind, ["(" + " ".join(m["head"]) + ")" for m in mcases])
     else:
